@@ -124,4 +124,15 @@ theorem effOf_wf (z : Bool) (op : Op) (w : W) : (effOf z op w).1.WF w := by
     simp_all [Eff.WF, Slot.ids, Slot.cells, mkCells_ids, setVal_ids, boxDrop_fx, dropGlue_fx, fromRaw] <;>
     (subst_vars; rfl)
 
+/-! The step sequences matter: `into_inner` written *without* the `ManuallyDrop` (the handle's own
+`Drop` then runs at scope end, after the value was read out) is not conservative — the value is both
+dropped and moved out, which is exactly the double drop the harness detects on such a crate. -/
+def intoInnerNoManuallyDrop (b : List Cell) (fx : Fx) : List Cell × Fx :=
+  let f := Frame.arg b
+  let v := ptrRead f.cells fx
+  (f.cells, (f.scopeEnd none v).2)
+
+example : let fx := (intoInnerNoManuallyDrop [⟨7, 0⟩] {}).2
+    fx.drops = [7] ∧ fx.moved = [7] ∧ ¬ ((Slot.empty).ids ++ fx.drops ++ fx.moved).Perm [7] := by decide
+
 end Bump.Bx
